@@ -270,3 +270,61 @@ def run(ck, prog):
 
 EXPLANATION += (" tred2: in the branch taken when the sub-row is exactly zero, no cell of V is both read and cleared (the work vector "
                 "comes from row i - 1, row i is the one cleared).")
+
+
+# ------------------------------------------------------------------ tql2: the shift is subtracted from ALL remaining diagonal entries
+_run_pre_tql2shift = run
+
+
+def tql2_shift_range(ck, prog):
+    """Each implicit QL step shifts the origin by h: h is subtracted from every diagonal entry still to be processed
+    (l + 2 .. n) and accumulated in f, which is added back to every eigenvalue found later (d[l] += f).  The subtraction loop
+    is bounded by the dimension itself - not by the end m of the active unreduced block, or the eigenvalues of later blocks
+    come out shifted by f.  Rule: the loop that performs `d[i] -= h` runs up to n (= shape(V).0 / len(d))."""
+    from sa.prov import Resolver, alts
+    from sa.match import dim_of
+    rule, inst = "E2-provenance", "tql2: the shift h is subtracted from every remaining diagonal entry (up to n)"
+    b = prog.bodies.get("linalg::evd::tql2")
+    if b is None:
+        ck.violation(rule, inst, "linalg::evd::tql2", "", expected="anchor exists", found="anchor vanished")
+        return
+    res = Resolver(b)
+
+    def is_dim(t):
+        if t[0] == "field" and t[2] == "0" and t[1][0] == "bin":        # (x WithOverflow).0
+            return False
+        return bool(dim_of(t))
+    n = 0
+    for bb, t in b.calls():
+        f = t.get("f")
+        if not (f and f["path"].endswith("SubAssign::sub_assign") and len(t["args"]) == 2):
+            continue
+        tgt = res.operand(t["args"][0])
+        # only updates of entries of the slice d (parameter 2)
+        if not any(s[0] == "arg" and s[1] == 2 for s in subterms(tgt)):
+            continue
+        bounds = []
+        for s in subterms(tgt):
+            if s[0] == "call" and s[1].endswith("Iterator::take") and len(s[2]) == 2:
+                bounds.append(s[2][1])
+            if s[0] == "agg" and s[1].endswith("Range::Range") and len(s[2]) == 2:
+                bounds.append(s[2][1])
+        if not bounds and not any(s[0] == "call" and s[1].endswith(("iter_mut", "Iterator::next")) for s in subterms(tgt)):
+            continue                                               # a single entry (d[l + 1] -= ..), not a loop over d
+        n += 1
+        bad = [x for x in bounds if not all(is_dim(a) for a in alts(x))]
+        if bad:
+            ck.violation(rule, inst, b.path, b.where(bb), ordinal=n, expected="for i in l + 2..n { d[i] -= h } with n the dimension",
+                         found=f"the loop is bounded by `{render(bad[0])[:60]}`")
+        else:
+            ck.ok(rule, inst, b.path, b.where(bb), f"bounded by {[render(x)[:30] for x in bounds] or 'the end of d'}")
+    if n == 0:
+        ck.note(f"{inst}: no loop of the form d[i] -= h over the diagonal in tql2: no instance")
+
+
+def run(ck, prog):
+    _run_pre_tql2shift(ck, prog)
+    tql2_shift_range(ck, prog)
+
+
+EXPLANATION += " tql2: the loop subtracting the shift h from the diagonal runs up to the dimension n (not to the end m of the active block)."
